@@ -162,6 +162,9 @@ func vInitAnySource(ds *AnySource, nchan int, period time.Duration) {
 	}
 }
 
+// vFeedRate, when > 0, is the exact sample rate given to the next feed's source.
+var vFeedRate float64
+
 // vNewFeed prepares an AnySource through the real PrepareChannels/PrepareRun.
 func vNewFeed(nchan int, period time.Duration, npre, nsamp int, restored []FullTriggerState) (*vFeed, error) {
 	viper.Reset()
@@ -169,6 +172,10 @@ func vNewFeed(nchan int, period time.Duration, npre, nsamp int, restored []FullT
 		viper.Set("trigger", restored)
 	}
 	ds := vNewAnySource(nchan, period)
+	if vFeedRate > 0 {
+		// the exact sample rate of a source whose period is not a whole number of ns (period = its ns-rounded value)
+		ds.sampleRate = vFeedRate
+	}
 	if err := ds.PrepareChannels(); err != nil {
 		return nil, err
 	}
